@@ -37,7 +37,11 @@ func padName(total, labelLen int, suffix string) string {
 	for room > 0 {
 		l := labelLen
 		if room-(l+1) == 1 { // would leave room for a dot only
-			l--
+			if l > 1 {
+				l--
+			} else {
+				l++
+			}
 		}
 		if l+1 > room {
 			l = room - 1
